@@ -397,6 +397,16 @@ func (e *ControllerEngine) StartWatches(name string, ws ...Watch) error {
 	c.mx.Lock()
 	defer c.mx.Unlock()
 
+	// Another Goroutine might also have started informers since we built the
+	// map of active informers, so we build it again. If we didn't we could
+	// start a second source for a watch that's already running, leaking the
+	// event handler of the source it replaces.
+	a = e.infs.ActiveInformers()
+	activeInformer = make(map[schema.GroupVersionKind]bool, len(a))
+	for _, gvk := range a {
+		activeInformer[gvk] = true
+	}
+
 	// Start new sources.
 	for i, w := range ws {
 		wid := WatchID{Type: w.wt, GVK: gvks[i]}
@@ -422,8 +432,11 @@ func (e *ControllerEngine) StartWatches(name string, ws ...Watch) error {
 			return errors.Wrapf(err, "cannot start %q watch for %q", wid.Type, wid.GVK)
 		}
 
-		// Record that we're now running this source.
+		// Record that we're now running this source. Starting it started an
+		// informer for its kind, if there wasn't one running already. We record
+		// that too, in case we were asked to start the same watch twice.
 		c.sources[wid] = src
+		activeInformer[wid.GVK] = true
 
 		e.log.Debug("Started watching GVK", "controller", name, "watch-type", wid.Type, "watched-gvk", wid.GVK)
 	}
